@@ -279,7 +279,9 @@ def parse_dot(dot, vars_, raw=False):
             m = _edge_re.match(line)
             if m:
                 if m.group(3) != 'Terminating':
-                    edges[m.group(1)].append((m.group(2), m.group(3), m.group(4) if m.group(4) is not None else '0'))
+                    ed = (m.group(2), m.group(3), (m.group(4) if m.group(4) is not None else '0').replace('\\"', '').replace('"', ''))
+                    if ed not in edges[m.group(1)]:
+                        edges[m.group(1)].append(ed)
                 continue
             m = _node_re.match(line)
             if m:
@@ -293,7 +295,7 @@ def parse_dot(dot, vars_, raw=False):
                         vals.append(mm.group(1).strip())
                     else:
                         vals += re.findall(r'-?\d+|TRUE|FALSE|\\"[^\\]*\\"', mm.group(1))
-                nodes[m.group(1)] = ('|' if raw else ',').join(x.replace('\\"', '') for x in vals)
+                nodes[m.group(1)] = ('\x1f' if raw else ',').join(x.replace('\\"', '') for x in vals)
                 if m.group(3):
                     init = m.group(1)
     return nodes, edges, init
@@ -397,7 +399,8 @@ def validate_traces(spec_dir, module, cfg, traces, tag, batch=200, timeout=900):
                     f.write('{"e":"Reset"}\n')
                 first = False
                 for ev in traces[i]:
-                    f.write(json.dumps(ev, separators=(',', ':')) + '\n')
+                    if not str(ev.get('e', '')).startswith('#'):      # '#...' pseudo-events (schedules) are not part of the history
+                        f.write(json.dumps(ev, separators=(',', ':')) + '\n')
 
     def check(idx_list):
         fn = os.path.join(BUILD, 'traces', '%s-%d-%d.ndjson' % (tag, os.getpid(), stats['tlc_runs']))
@@ -517,7 +520,7 @@ def read_trace_file(fn):
 def dedupe_traces(execs):
     seen = {}; out = []
     for i, e in enumerate(execs):
-        k = json.dumps(e, sort_keys=True)
+        k = json.dumps([x for x in e if not str(x.get('e', '')).startswith('#')], sort_keys=True)
         if k not in seen:
             seen[k] = i; out.append(e)
     return out
@@ -556,6 +559,9 @@ def graph_schedules(res, spec_dir, module, cfg, vars_, tag, max_len=800, limit=N
     return fn, len(paths), cov, tot, r
 
 
+_drift_shown = [0]
+
+
 def run_harness_parallel(cmd_fn, sched_file, tag, nproc=None, timeout=1100):
     """split sched_file into parts; cmd_fn(part_file, trace_file) -> argv.  Returns (list of summary dicts, list of trace files)"""
     nproc = nproc or NCPU
@@ -574,7 +580,8 @@ def run_harness_parallel(cmd_fn, sched_file, tag, nproc=None, timeout=1100):
             raise HarnessFailure('harness printed no summary:\n%s' % (p.stdout + p.stderr)[-2000:])
         sums.append(json.loads(last[-1]))
         for l in p.stderr.splitlines():
-            if l.startswith('SPEC-DRIFT'):
+            if l.startswith('SPEC-DRIFT') and _drift_shown[0] < 6:
+                _drift_shown[0] += 1
                 print(l)
         os.unlink(part)
     return sums, tfs
